@@ -241,3 +241,148 @@ Example C06_empty_child_example :
   build (PNode (Some 1%nat) OOther [PTok ((0, 1, 1), (1, 1, 2)); PNode None OOther []; PTok ((1, 1, 2), (2, 1, 3))])%Z
   = SHTree (mkMeta (Some (0, 1, 1)) (Some (2, 1, 3)) (Some (0, 1, 1)) (Some (2, 1, 3)))%Z.
 Proof. vm_compute. reflexivity. Qed.
+
+(* ---- round 12: the PropagatePositions model is the regenerated code -------------------------------------
+   Gen/PropPos.v holds, regenerated from lark/parse_tree_builder.py and lark/tree.py on every run, the
+   attribute copies of PropagatePositions.__call__ (res_meta.dst = getattr(src, c, src.d)), the hasattr probes,
+   the "empty = False" marks, the condition under which _pp_get_meta lets a Tree child offer its meta, and Meta's
+   constructor; Pos/PropPosModel.rpropagate interprets them attribute by attribute (None = AttributeError).
+   The grouped model MetaSpan.propagate used by every theorem above is that code. *)
+From LV Require Import Pos.RawMeta Gen.PropPos Pos.PropPosModel Pos.PropPos_proofs Gen.CounterCopy Gen.TokenFields
+  Pos.Recover Pos.Recover_proofs.
+
+Theorem C06_propagate_regenerated m ch :
+  Forall full_shaped ch ->
+  rpropagate all_kept (raw_meta m) (map raw_shaped ch) = Some (raw_meta (propagate m ch)).
+Proof. exact (propagate_regenerated m ch). Qed.
+Print Assumptions C06_propagate_regenerated.
+
+(* every meta the callbacks of a parse produce has both ends or none, so the eager getattr defaults of
+   PropagatePositions never raise AttributeError (the crash repaired as F46 cannot come back unnoticed) *)
+Theorem C06_propagate_no_attribute_error p : leaves_full p -> full_shaped (build p).
+Proof. exact (build_full p). Qed.
+Print Assumptions C06_propagate_no_attribute_error.
+
+(* an inlined rule's result may be first_meta / last_meta itself: the fields the first half writes are not
+   read by the second half, so reading the live object equals reading a snapshot *)
+Theorem C06_pp_alias_safe : pp_alias_safe = true.
+Proof. exact alias_safe. Qed.
+Print Assumptions C06_pp_alias_safe.
+
+(* ---- round 12: forks and error recovery ----------------------------------------------------------------- *)
+(* copy(line_ctr) - every fork of a lexer state - transfers every slot (regenerated slot list / __copy__) *)
+Theorem C06_fork_keeps_counter c :
+  lc_copy c = c /\ lc_copy_keeps_newline_char = true /\
+  lc_slots = ["char_pos"; "line"; "column"; "line_start_pos"; "newline_char"]%string.
+Proof. exact (conj (fork_keeps_counter c) (conj fork_keeps_newline_char slots_modelled)). Qed.
+Print Assumptions C06_fork_keeps_counter.
+
+(* a fork taken at exact coordinates lexes tokens with exact coordinates *)
+Theorem C06_lexer_coords_fork {A term : Type} (eqb : A -> A -> bool) (nl : A)
+  (scan : list term -> list A -> Z -> Z -> option (nat * term)) (ignore newline_types : term -> bool)
+  (T : list A) (e : nat) fuel hist (p : nat) c ts o :
+  (e <= List.length T)%nat ->
+  (forall h (p n : nat) ty, scan h T (Z.of_nat p) (Z.of_nat e) = Some (n, ty) -> (p + n <= e)%nat) ->
+  (p <= e)%nat -> at_coord eqb nl T p c ->
+  lex_fork eqb nl scan ignore newline_types fuel hist T (Z.of_nat e) c = (ts, o) ->
+  Forall (tok_ok eqb nl T p e) ts /\ chain (Z.of_nat p) ts /\ outcome_ok eqb nl T p e o.
+Proof. exact (fun He Hb => lexer_coords_fork eqb nl scan ignore newline_types T e He Hb fuel hist p c ts o). Qed.
+Print Assumptions C06_lexer_coords_fork.
+
+(* parse(text, on_error=h), h accepting UnexpectedCharacters without moving the lexer: the recovery loop of
+   LALR_Parser.parse steps over the offending character with line_ctr.feed(text[p:p+1]) (regenerated); every
+   token lexed afterwards - whatever was skipped, newlines included - and every reported error position
+   carry exact coordinates *)
+Theorem C06_recover_skip_tracks_coord {A : Type} (eqb : A -> A -> bool) (nl : A) (T : list A) (p : nat) c :
+  (p < List.length T)%nat -> at_coord eqb nl T p c -> at_coord eqb nl T (p + 1) (recover_skip eqb nl T c).
+Proof. exact (recover_skip_tracks_coord eqb nl T p c). Qed.
+Print Assumptions C06_recover_skip_tracks_coord.
+
+Theorem C06_lexer_coords_recovering {A term : Type} (eqb : A -> A -> bool) (nl : A)
+  (scan : list term -> list A -> Z -> Z -> option (nat * term)) (ignore newline_types : term -> bool)
+  (T : list A) (a e : nat) snap evs ok :
+  (e <= List.length T)%nat ->
+  (forall h (p n : nat) ty, scan h T (Z.of_nat p) (Z.of_nat e) = Some (n, ty) -> (p + n <= e)%nat) ->
+  (a <= e)%nat ->
+  (snap = None \/ snap = Some (line_of eqb nl T a, line_start_of eqb nl T a)) ->
+  lex_slice_rec eqb nl scan ignore newline_types T (Z.of_nat a) (Z.of_nat e) snap = (evs, ok) ->
+  Forall (event_ok eqb nl T a e) evs.
+Proof. exact (fun He Hb => lexer_coords_recovering eqb nl scan ignore newline_types T e He Hb a snap evs ok). Qed.
+Print Assumptions C06_lexer_coords_recovering.
+
+(* Token.new_borrow_pos / update / __deepcopy__ / __reduce__ (regenerated argument lists) keep all six
+   position fields; UnexpectedCharacters stores (lex_pos, line, column) unchanged *)
+Theorem C06_token_plumbing_keeps_positions {A term : Type} (ty : term) (v : list A) oty ov (t : token A term) :
+  (let b := borrow_pos ty v t in
+   t_type b = ty /\ t_value b = v /\ t_start b = t_start t /\ t_line b = t_line t /\ t_column b = t_column t /\
+   t_end_line b = t_end_line t /\ t_end_column b = t_end_column t /\ t_end_pos b = t_end_pos t) /\
+  (let b := tok_update oty ov t in
+   t_start b = t_start t /\ t_line b = t_line t /\ t_column b = t_column t /\
+   t_end_line b = t_end_line t /\ t_end_column b = t_end_column t /\ t_end_pos b = t_end_pos t /\
+   (oty = None -> t_type b = t_type t) /\ (ov = None -> t_value b = t_value t)) /\
+  tok_deepcopy t = t /\ tok_reduce t = t /\ (forall p l c, uc_fields p l c = (p, l, c)).
+Proof.
+  exact (conj (borrow_keeps_positions ty v t) (conj (update_keeps_positions oty ov t)
+          (conj (deepcopy_id t) (conj (reduce_id t) uc_fields_id)))).
+Qed.
+Print Assumptions C06_token_plumbing_keeps_positions.
+
+(* Non-vacuity: "a$\nb" with terminal CH = [ab]: the run with recovery skips "$" and the newline and reports
+   b on line 2, column 1; a fork taken after "a" continues at column 2 *)
+Definition ex5_scan (h : list string) (T : list ascii) (p e : Z) : option (nat * string) :=
+  match nth_error T (Z.to_nat p) with
+  | Some c => if (Ascii.eqb c "a" || Ascii.eqb c "b")%bool then Some (1%nat, "CH"%string) else None
+  | None => None
+  end.
+Example C06_recover_example :
+  fst (lex_slice_rec Ascii.eqb anl ex5_scan (fun _ => false) (fun _ => false) (txt "a$\010b") 0 4 None)
+  = [EvTok (mkTok "CH"%string [ "a"%char ] 0 1 1 1 2 1); EvErr 1 1 2; EvErr 2 1 3;
+     EvTok (mkTok "CH"%string [ "b"%char ] 3 2 1 2 2 4)]%Z.
+Proof. vm_compute. reflexivity. Qed.
+
+(* ---- round 12: tree coordinates on the Earley routes -------------------------------------------------------
+   ForestToParseTree calls the same ParseTreeBuilder callbacks (PropagatePositions around the Shape chain) as the
+   LALR driver, bottom-up on the derivation it selected.  Assumption about the selection: NONE beyond "d is a
+   derivation tree whose leaves are tokens of the lexer" - any stored derivation, whatever priorities and
+   ambiguity resolution chose.  Basic lexer: every token and every meta triple is an exact coordinate. *)
+From LV Require Import Pos.TreeAny_proofs.
+From Coq Require Import Lia.
+
+Theorem C06_tree_coords_exact_earley {A term : Type} (eqb : A -> A -> bool) (nl : A) (rr : rule -> rrec) (mp : bool)
+  (scan : list term -> list A -> Z -> Z -> option (nat * term)) (ignore newline_types : term -> bool)
+  (T : list A) (a e : nat) ts o (d : Driver.dtree (token A term)) v :
+  (a <= e)%nat -> (e <= List.length T)%nat ->
+  (forall h (p n : nat) ty, scan h T (Z.of_nat p) (Z.of_nat e) = Some (n, ty) -> (p + n <= e)%nat) ->
+  lex_slice eqb nl scan ignore newline_types T (Z.of_nat a) (Z.of_nat e) None = (ts, o) ->
+  (forall t, In t (Driver.yield _ d) -> In t ts) ->
+  tree_of rr mp d = Some v ->
+  Forall (tok_ok eqb nl T a e) (vtokens v) /\ Forall (trip_exact eqb nl T a e) (vtrips v).
+Proof. exact (tree_coords_exact_earley eqb nl rr mp scan ignore newline_types T a e ts o d v). Qed.
+Print Assumptions C06_tree_coords_exact_earley.
+
+(* dynamic lexers: tokens are created in xearley.scan from the text position (Gen/DynStep.v); in the tree of any
+   derivation over such tokens every token is one of them (value T[s:e], start coordinates exact, end = last
+   character + one column: C06_dyn_token_coords) and every meta triple is the start of one - an exact coordinate -
+   or the end of one *)
+Theorem C06_dyn_tree_coords {A term : Type} (eqb : A -> A -> bool) (nl : A) (isnl : A -> bool) (rr : rule -> rrec)
+  (mp : bool) (T : list A) (d : Driver.dtree (token A term)) v :
+  (forall x, isnl x = eqb x nl) ->
+  Forall (dyn_tok isnl T) (Driver.yield _ d) -> tree_of rr mp d = Some v ->
+  Forall (dyn_tok isnl T) (vtokens v) /\ Forall (dyn_trip eqb nl T) (vtrips v).
+Proof. exact (fun H => dyn_tree_coords eqb nl isnl rr mp H T d v). Qed.
+Print Assumptions C06_dyn_tree_coords.
+
+(* Non-vacuity: pair: "(" NUM ")" over the dynamic scanner's tokens of "x\n(7)" (offsets 2..5, line 2) *)
+Example C06_dyn_tree_example :
+  let T := txt "x\010(7)" in
+  let isnl := isnl_str Ascii.eqb anl in
+  let d := Driver.Node ex4_rule [Driver.Leaf (dyn_token isnl "LPAR"%string T 2 3); Driver.Leaf (dyn_token isnl "NUM"%string T 3 4);
+                                 Driver.Leaf (dyn_token isnl "RPAR"%string T 4 5)] in
+  Forall (dyn_tok (term:=string) isnl T) (Driver.yield _ d) /\
+  tree_of ex4_rr true d =
+    Some (VTree "pair" (mkMeta (Some (2, 2, 1)) (Some (5, 2, 4)) (Some (2, 2, 1)) (Some (5, 2, 4)))%Z
+            [VTok (mkTok "NUM"%string [ "7"%char ] 3 2 2 2 3 4)]).
+Proof.
+  split; [|vm_compute; reflexivity].
+  repeat constructor; eexists _, _, _; (split; [|split; [|reflexivity]]); cbn; lia.
+Qed.
